@@ -1,7 +1,76 @@
-(* placeholder until the codec theorems land *)
-From Coq Require Import List.
-From OKE Require Import BytesLemmas.
-Theorem C19_placeholder : forall l x y px py r1 r2,
-  Bytes.lenprefix l x = Some px -> Bytes.lenprefix l y = Some py -> px ++ r1 = py ++ r2 -> x = y /\ r1 = r2.
-Proof. exact lenprefix_inj. Qed.
-Print Assumptions C19_placeholder.
+(* C19 - key-exchange group operations obey their laws.  PARTIAL (DESIGN.md C19): proved here are the
+   codec and derivation facts; that the concrete Weierstrass / Edwards / Montgomery formulas form a group
+   (hence Diffie-Hellman symmetry) is NOT proved in Coq - no elliptic-curve library is available here -
+   it is the [g_dh_sym] field of GroupLaws, validated by the battery against the crate. *)
+From Coq Require Import List ZArith.
+From OKE Require Import Bytes Suite Generated GroupsConcrete CodecsConcrete Weierstrass Curve25519 Suites Laws.
+Import ListNotations.
+
+(* private-key encodings round-trip exactly, in both directions *)
+Theorem C19_nist_scalar_encode_decode :
+  forall (C : wcurve), (0 < w_n C < 256 ^ Z.of_nat (w_Nfe C))%Z ->
+  forall k, (0 < k < w_n C)%Z -> w_deser_scalar C (w_ser_scalar C k) = Some k.
+Proof. exact w_scalar_roundtrip. Qed.
+Print Assumptions C19_nist_scalar_encode_decode.
+
+Theorem C19_nist_scalar_decode_encode :
+  forall (C : wcurve) b k, length b = w_Nfe C -> w_deser_scalar C b = Some k -> w_ser_scalar C k = b.
+Proof. exact w_scalar_canon. Qed.
+Print Assumptions C19_nist_scalar_decode_encode.
+
+Theorem C19_orders_fit :
+  (0 < w_n P256 < 256 ^ Z.of_nat (w_Nfe P256))%Z /\ (0 < w_n P384 < 256 ^ Z.of_nat (w_Nfe P384))%Z /\
+  (0 < w_n P521 < 256 ^ Z.of_nat (w_Nfe P521))%Z /\ (0 < ell < 256 ^ Z.of_nat 32)%Z.
+Proof. exact (conj P256_order_fits (conj P384_order_fits (conj P521_order_fits ell_fits))). Qed.
+Print Assumptions C19_orders_fit.
+
+Theorem C19_ristretto_scalar_encode_decode :
+  forall k, (0 < k < ell)%Z -> r_deser_scalar (r_ser_scalar k) = Some k.
+Proof. exact r_scalar_roundtrip. Qed.
+Print Assumptions C19_ristretto_scalar_encode_decode.
+
+Theorem C19_ristretto_scalar_decode_encode :
+  forall b k, length b = 32 -> r_deser_scalar b = Some k -> r_ser_scalar k = b.
+Proof. exact r_scalar_canon. Qed.
+Print Assumptions C19_ristretto_scalar_decode_encode.
+
+(* public-key encodings: decoding accepts only what encoding produces (all five groups) *)
+Theorem C19_public_key_decode_encode :
+  (forall C b pk, k_deser_pk (ke_weierstrass C) b = Some pk -> k_ser_pk (ke_weierstrass C) pk = b) /\
+  (forall b pk, k_deser_pk K_R255 b = Some pk -> k_ser_pk K_R255 pk = b) /\
+  (forall b pk, k_deser_pk K_X25519 b = Some pk -> k_ser_pk K_X25519 pk = b).
+Proof.
+  split; [exact ke_w_canon|]. split; [exact (proj1 K_R255_laws) | exact (proj1 K_X25519_laws)].
+Qed.
+Print Assumptions C19_public_key_decode_encode.
+
+(* seeded derivation always yields a valid, non-zero private key *)
+Theorem C19_nist_derivation_valid :
+  forall (C : wcurve), (0 < w_n C < 256 ^ Z.of_nat (w_Nfe C))%Z -> forall h id seed k,
+    k_derive (ke_weierstrass C) h id seed = Some k ->
+    (0 < k < w_n C)%Z /\ k_deser_sk (ke_weierstrass C) (k_ser_sk (ke_weierstrass C) k) = Some k.
+Proof. exact w_derive_valid. Qed.
+Print Assumptions C19_nist_derivation_valid.
+
+(* Curve25519: DeriveDiffieHellmanKeyPair is RFC 7748 clamping of the seed; clamping is idempotent,
+   never zero, and a clamped string is a valid private key that round-trips exactly *)
+Theorem C19_x25519_derivation_is_clamping :
+  forall h id seed, k_derive K_X25519 h id seed = Some (clamp seed).
+Proof. exact x25519_derive_is_clamp. Qed.
+Print Assumptions C19_x25519_derivation_is_clamping.
+
+Theorem C19_x25519_clamp_idempotent : forall b, length b = 32 -> clamp (clamp b) = clamp b.
+Proof. exact clamp_idempotent. Qed.
+Print Assumptions C19_x25519_clamp_idempotent.
+
+Theorem C19_x25519_clamped_key_valid : forall b, length b = 32 -> x_deser_sk (clamp b) = Some (clamp b).
+Proof. exact x25519_clamped_is_valid_key. Qed.
+Print Assumptions C19_x25519_clamped_key_valid.
+
+(* Diffie-Hellman symmetry and public-key consistency: consequences of the group laws (hypothesis for the
+   concrete curves); stated here so that the dependency is explicit *)
+Theorem C19_dh_symmetric_partial :
+  forall E Sc Pk Sk (CS : Suite E Sc Pk Sk), GroupLaws CS ->
+  forall a b, vk CS a -> vk CS b -> k_dh (ke CS) (k_pub (ke CS) a) b = k_dh (ke CS) (k_pub (ke CS) b) a.
+Proof. intros E Sc Pk Sk CS GL. exact (g_dh_sym CS GL). Qed.
+Print Assumptions C19_dh_symmetric_partial.
